@@ -575,9 +575,10 @@ def compare_position(raw, hline, dline, with_model):
     return bad, info
 
 
-def run_chunk(cpp, ml, raws, with_model):
-    """returns list of (raw, hline, dline) or raises"""
-    rc, out, err = sh([cpp, "eval"], input="\n".join(raws) + "\n", timeout=3600)
+def run_chunk(cpp, ml, raws, with_model, timeout=None):
+    """returns (list of (raw, hline, dline), "") or (None, reason) when a program crashed or hung"""
+    timeout = timeout or 40          # the real code needs microseconds per position
+    rc, out, err = sh([cpp, "eval"], input="\n".join(raws) + "\n", timeout=timeout)
     hl = out.strip("\n").split("\n") if out.strip() else []
     if rc != 0 or len(hl) != len(raws):
         return None, "harness rc=%d lines=%d/%d %s" % (rc, len(hl), len(raws), err[-500:])
@@ -585,18 +586,18 @@ def run_chunk(cpp, ml, raws, with_model):
     for raw, h in zip(raws, hl):
         pl = parse_fields(h.partition(" # ")[0]).get("pl", "-")
         lines.append("%s %s | %s" % ("P" if with_model else "S", raw, pl.replace(",", " ")))
-    rc, out, err = sh([ml, "eval"], input="\n".join(lines) + "\n", timeout=7200)
+    rc, out, err = sh([ml, "eval"], input="\n".join(lines) + "\n", timeout=30 * timeout)
     dl = out.strip("\n").split("\n") if out.strip() else []
     if rc != 0 or len(dl) != len(raws):
         return None, "driver rc=%d lines=%d/%d %s" % (rc, len(dl), len(raws), err[-500:])
     return list(zip(raws, hl, dl)), ""
 
 
-def check_raws(cpp, ml, raws, with_model):
+def check_raws(cpp, ml, raws, with_model, timeout=None):
     """disagreement kinds for each raw position (sequential; used by shrink / finder / replay)"""
-    res, err = run_chunk(cpp, ml, raws, with_model)
+    res, err = run_chunk(cpp, ml, raws, with_model, timeout=timeout)
     if res is None:
-        return [["crash:" + err] for _ in raws], [None] * len(raws)
+        return [["crash:" + err[:300]] for _ in raws], [None] * len(raws)
     out, infos = [], []
     for raw, h, d in res:
         bad, info = compare_position(raw, h, d, with_model)
@@ -621,7 +622,10 @@ def shrink(cpp, ml, raw, kind, with_model):
             cands.append("%s %s 0 %s" % (b, side, ep))
         if not cands:
             break
-        res, _ = check_raws(cpp, ml, cands, with_model)
+        res, _ = check_raws(cpp, ml, cands, with_model, timeout=60)
+        if res and res[0] and res[0][0].startswith("crash") and len(cands) > 1:
+            # a candidate makes a program crash/hang: test candidates one at a time
+            res = [check_raws(cpp, ml, [c], with_model, timeout=15)[0][0] for c in cands]
         for cand, bad in zip(cands, res):
             if kind in bad and "accepted" not in bad and "canTakeKing" not in bad:
                 cur = cand
@@ -633,8 +637,10 @@ def shrink(cpp, ml, raw, kind, with_model):
 def perft_compare(cpp, ml, raws, depth):
     """C++ perft vs Spec perft (with per-move breakdown) from the given positions"""
     inp = "\n".join("%d %s" % (depth, r) for r in raws) + "\n"
-    rc1, o1, e1 = sh([cpp, "perft"], input=inp, timeout=3600)
-    rc2, o2, e2 = sh([ml, "perft"], input=inp, timeout=3600)
+    rc1, o1, e1 = sh([cpp, "perft"], input=inp, timeout=300)
+    rc2, o2, e2 = sh([ml, "perft"], input=inp, timeout=1800)
+    if rc1 != 0 or rc2 != 0:
+        return [], 0
     l1, l2 = o1.strip("\n").split("\n"), o2.strip("\n").split("\n")
     diffs = []
     for r, a, b in zip(raws, l1, l2):
@@ -785,21 +791,27 @@ def run(ctx):
     # (2) prove
     extra = [] if ctx.quick else ["Chess/MagicSweep.vo"]
     if os.path.exists(os.path.join(VERIF, "coq", PROP_FILE)):
-        ok, info = coqbuild.prove(ctx, PROP_FILE, extra_targets=extra, timeout=ctx.scale(1500, 7200))
+        ok, pinfo = coqbuild.prove(ctx, PROP_FILE, extra_targets=extra, timeout=ctx.scale(1500, 7200))
     else:
-        ok, info = False, {"errors": [("Properties_C01.v", 0, "missing")]}
+        ok, pinfo = False, {"errors": [("Properties_C01.v", 0, "missing")]}
     proof_broken = (not ok) or tie_broken is not None
+    try:
+        import re as _re
+        ptxt = coqbuild.strip_comments(open(os.path.join(VERIF, "coq", PROP_FILE)).read())
+        ctx.notes["statements_not_proved"] = _re.findall(r"Definition\s+(C01_\w+_statement)", ptxt)
+    except OSError:
+        pass
     ctx.log("proof stage: %s (%d theorems)" % ("OK" if ok else "FAILED", len(ctx.obligations)))
     if not ok:
-        ctx.log("proof stage failed: %s" % (info.get("errors") or info.get("forbidden") or info.get("illegal_axioms")))
+        ctx.log("proof stage failed: %s" % (pinfo.get("errors") or pinfo.get("forbidden") or pinfo.get("illegal_axioms")))
     # (3) build
     cpp = cbuild.build_harness("movegen_harness")
     try:
         ml = coqbuild.extract("ExtractMoveGen.v", "movegen_driver.ml", "movegen_driver")
     except RuntimeError as ex:
         if proof_broken:
-            ctx.violation("Coq development of C01 does not build (translator/proof stage): %s" % (tie_broken or info.get("errors")),
-                          {"translator": tie_broken, "proof": info, "extract": str(ex)[:2000]}, no_failing_input=True)
+            ctx.violation("Coq development of C01 does not build (translator/proof stage): %s" % (tie_broken or pinfo.get("errors")),
+                          {"translator": tie_broken, "proof": pinfo, "extract": str(ex)[:2000]}, no_failing_input=True)
             return
         raise
     ctx.log("harness and extracted model built")
@@ -823,7 +835,7 @@ def run(ctx):
         # the implementation itself aborts (e.g. the assert in BitBoard::staticInitialize on a table collision)
         rc, out, err = sh([cpp, "expand"], input="F " + START_FEN + "\n", timeout=60)
         ctx.violation("the engine code aborts while generating moves / initialising its tables: %s" % str(ex)[:300],
-                      {"translator": tie_broken, "broken_proof": None if ok else info, "table_problems": table_problems[:5],
+                      {"translator": tie_broken, "broken_proof": None if ok else pinfo, "table_problems": table_problems[:5],
                        "failing_input": {"kind": "abort", "raw": None, "fen": START_FEN, "rc": rc, "stderr": err[-1500:]}},
                       key="abort:startpos" if rc != 0 else None, no_failing_input=(rc == 0))
         return
@@ -860,9 +872,10 @@ def run(ctx):
     with ThreadPoolExecutor(max_workers=NCPU) as ex:
         for (wm, items), (res, err) in ex.map(one, jobs):
             if res is None:
-                # locate the crashing position
+                # a program crashed or did not terminate: locate the position
+                ctx.count("chunks_with_crash_or_timeout")
                 for k, r in items:
-                    bad, _ = check_raws(cpp, ml, [r], wm)
+                    bad, _ = check_raws(cpp, ml, [r], wm, timeout=15)
                     if bad[0]:
                         disagreements.append((bad[0], k, r, wm, "", err))
                         break
@@ -911,19 +924,27 @@ def run(ctx):
         return
 
     # (5) finder: implementation vs Spec only
-    replay = {"translator": tie_broken, "broken_proof": None if ok else info, "table_problems": table_problems[:5],
+    replay = {"translator": tie_broken, "broken_proof": None if ok else pinfo, "table_problems": table_problems[:5],
               "disagreements": len(disagreements)}
     spec_dis = [d for d in disagreements if any(not b.startswith("model:") for b in d[0])]
     found = None
     if spec_dis:
         bad, k, raw, wm, h, d = spec_dis[0]
         kind = [b for b in bad if not b.startswith("model:")][0]
-        small = shrink(cpp, ml, raw, kind, False) if not kind.startswith("crash") else raw
-        res, infos = check_raws(cpp, ml, [small], False)
-        r2, _ = run_chunk(cpp, ml, [small], False)
-        found = {"kind": kind, "raw": small, "original_raw": raw, "generator": k,
-                 "fen": infos[0]["fen"] if infos[0] else "", "all_kinds": res[0],
-                 "cpp": r2[0][1] if r2 else h, "spec": r2[0][2] if r2 else d}
+        if kind.startswith("crash"):
+            # the implementation (or the model) crashes / does not terminate on this position: which one?
+            rc, out, err = sh([cpp, "eval"], input=raw + "\n", timeout=15)
+            found = {"kind": "crash_or_hang", "raw": raw, "original_raw": raw, "generator": k, "fen": "",
+                     "implementation_rc": rc, "implementation_stderr": err[-500:], "detail": kind[:400]}
+            if rc == 0:
+                found = None          # the implementation is fine here: the model side failed
+        else:
+            small = shrink(cpp, ml, raw, kind, False)
+            res, infos = check_raws(cpp, ml, [small], False, timeout=60)
+            r2, _ = run_chunk(cpp, ml, [small], False, timeout=60)
+            found = {"kind": kind, "raw": small, "original_raw": raw, "generator": k,
+                     "fen": infos[0]["fen"] if infos[0] else "", "all_kinds": res[0],
+                     "cpp": r2[0][1] if r2 else h, "spec": r2[0][2] if r2 else d}
     else:
         # model disagreements / broken proof / table problems: search for a Spec-level failure on the
         # disagreement positions and their neighbourhood by perft enumeration, then on fresh positions
